@@ -193,6 +193,9 @@ class Ctx:
         q, _ = torch.linalg.qr(gen.randn(self._next(), (self.N, 3, 3)))
         return self._wrap("rot3", q.contiguous())
 
+    def patches(self) -> Tensor:
+        return self._wrap("patches", gen.rand(self._next(), (self.N, 3, 4, 4, 3), -0.9, 0.9))
+
     def kernel(self) -> Tensor:
         self._next()
         k = torch.tensor([0.25, 0.5, 0.25])
@@ -1034,7 +1037,7 @@ class FrameEngine:
         return "multiset of pool object types"
 
     def components(self) -> Dict[str, Any]:
-        return {"real": ["deepali.core.functional (all public functions)", "deepali.losses.functional (all public functions)", "deepali.core.grid/cube",
+        return {"real": ["deepali.core.functional (all public functions)", "deepali.losses.functional (all public functions)", "deepali.losses loss modules", "deepali.core.grid/cube",
                          "deepali.data Image/ImageBatch/FlowField/FlowFields", "deepali.spatial transforms", "torch dispatch (__torch_function__)", "copy/pickle"],
                 "simulated": ["interrupt at the k-th torch call of an operation (TorchFunctionMode)", "parameter callables of transforms"],
                 "stubs": []}
@@ -1043,4 +1046,5 @@ class FrameEngine:
         return ["the fingerprint covers every tensor reachable through slots, _grid, _axes, parameters, buffers (+persistence), submodules, _args/_kwargs and public scalar attributes; behaviour of a transform is a function of that state",
                 "sharing by design is what actually shares a tensor storage or a Grid object with the receiver at that moment; everything else (labels, structure, modules, scalars) may never change in another object",
                 "a function that raises for an argument layout is not judged for its result, only for having left its arguments alone",
-                "functions without a recipe: " + (", ".join(frame_api.unmodelled()) or "none")]
+                "functions without a recipe: " + (", ".join(frame_api.unmodelled()) or "none"),
+                "loss modules (deepali.losses classes) without a recipe: " + (", ".join(frame_api.loss_classes_unmodelled()) or "none")]
